@@ -50,7 +50,9 @@ def sync_scratch(kind):
     """rsync the current tree to a fixed scratch path per kind (so cargo's incremental state stays valid); caller holds the lock"""
     dst = os.path.join(SCRATCH, kind, 'src')
     os.makedirs(dst, exist_ok=True)
-    cmd = ['rsync', '-a', '--delete', '--checksum']
+    # no -t: a file whose content changed gets the current time (cargo's freshness test is mtime based and the scratch path is reused
+    # across different trees); unchanged files keep their time, so incremental builds still work
+    cmd = ['rsync', '-rlpgoD', '--delete', '--checksum']
     for e in EXCLUDE: cmd += ['--exclude', e]
     cmd += [REPO + '/', dst + '/']
     r = subprocess.run(cmd, capture_output=True, text=True)
